@@ -411,7 +411,7 @@ NSHARD = 16
 
 
 def plan(tier):
-    n = 120 if tier == 'quick' else 700
+    n = 120 if tier == 'quick' else 1800
     sizes = list(range(1, 41)) + [48, 64, 65, 80, 100] if tier == 'quick' else list(range(1, 131))
     return [{'kind': 'hyp', 'shard': i, 'examples': n} for i in range(NSHARD)] + \
            [{'kind': 'ring', 'shard': 100 + i, 'sizes': sizes[i::4]} for i in range(4)]
